@@ -7,9 +7,9 @@ import Gojq.Proofs.LineInfo
 namespace Gojq.Cli
 open Gojq
 
-/-- a chunk of bytes that `utf8.DecodeRune` accepts as one complete rune other than U+FFFD -/
+/-- a chunk of bytes that `utf8.DecodeRune` accepts as one complete rune (U+FFFD included) -/
 def RuneChunk (c : Bytes) : Prop :=
-  c ≠ [] ∧ (Utf8.decodeRune c).2 = (c.length, true) ∧ (Utf8.decodeRune c).1 ≠ Utf8.runeError
+  c ≠ [] ∧ (Utf8.decodeRune c).2 = (c.length, true)
 
 theorem isCont_iff (b : UInt8) : Utf8.isCont b = true ↔ 0x80 ≤ b.toNat ∧ b.toNat ≤ 0xBF := by
   simp [Utf8.isCont]
@@ -101,7 +101,7 @@ theorem RuneChunk.shape {c : Bytes} (h : RuneChunk c) :
     (∃ b0 b1, c = [b0, b1] ∧ 0xC2 ≤ b0.toNat ∧ b0.toNat < 0xE0 ∧ Utf8.isCont b1 = true) ∨
     (∃ b0 b1 b2, c = [b0, b1, b2] ∧ 0xE0 ≤ b0.toNat ∧ b0.toNat < 0xF0 ∧ Utf8.isCont b1 = true ∧ Utf8.isCont b2 = true) ∨
     (∃ b0 b1 b2 b3, c = [b0, b1, b2, b3] ∧ 0xF0 ≤ b0.toNat ∧ b0.toNat < 0xF5 ∧ Utf8.isCont b1 = true ∧ Utf8.isCont b2 = true ∧ Utf8.isCont b3 = true) := by
-  obtain ⟨hne, hdec, _⟩ := h
+  obtain ⟨hne, hdec⟩ := h
   cases c with
   | nil => exact absurd rfl hne
   | cons b0 rest =>
@@ -192,7 +192,8 @@ theorem trimLoop_step (pre c : Bytes) (st m : Nat) (b : UInt8) (hb : c[m]? = som
     trimLoop (pre ++ c) (st + 1) (pre.length + m + 1) =
       if b.toNat < 0x80 then (pre ++ c).take (pre.length + m + 1)
       else if runeStart b then
-        if (Utf8.decodeRune (c.drop m)).1 == Utf8.runeError then pre ++ c.take m else pre ++ c
+        if (Utf8.decodeRune (c.drop m)).1 == Utf8.runeError && (Utf8.decodeRune (c.drop m)).2.1 ≤ 1 then pre ++ c.take m
+        else pre ++ c
       else trimLoop (pre ++ c) st (pre.length + m) := by
   rw [trimLoop, getElem?_append_add, hb]
   simp only [drop_append_add, take_append_add]
@@ -207,7 +208,8 @@ open Gojq
 theorem trim_lead_conts (pre : Bytes) (b0 : UInt8) (conts : Bytes) (hb0 : 0xC0 ≤ b0.toNat)
     (hc : ∀ b, b ∈ conts → Utf8.isCont b = true) (hl : conts.length ≤ 2) :
     trimLastInvalidRune (pre ++ b0 :: conts) =
-      if (Utf8.decodeRune (b0 :: conts)).1 == Utf8.runeError then pre else pre ++ b0 :: conts := by
+      if (Utf8.decodeRune (b0 :: conts)).1 == Utf8.runeError && (Utf8.decodeRune (b0 :: conts)).2.1 ≤ 1 then pre
+      else pre ++ b0 :: conts := by
   have h0 : ¬ b0.toNat < 0x80 := by omega
   have hrs := runeStart_of_ge hb0
   match conts, hc, hl with
@@ -261,13 +263,15 @@ theorem trim_ascii_end (pre : Bytes) (b0 : UInt8) (h : b0.toNat < 0x80) :
 
 /-- T1: a text that ends with a complete rune is kept -/
 theorem trim_complete (pre c : Bytes) (h : RuneChunk c) : trimLastInvalidRune (pre ++ c) = pre ++ c := by
-  have hne := h.2.2
+  have hdec := h.2
   rcases h.shape with ⟨b0, rfl, h0⟩ | ⟨b0, b1, rfl, h1, h2, hc1⟩ | ⟨b0, b1, b2, rfl, h1, h2, hc1, hc2⟩ | ⟨b0, b1, b2, b3, rfl, h1, h2, hc1, hc2, hc3⟩
   · exact trim_ascii_end pre b0 h0
   · rw [trim_lead_conts pre b0 [b1] (by omega) (by simpa using hc1) (by simp)]
-    rw [if_neg (by simpa using hne)]
+    have hw : (Utf8.decodeRune [b0, b1]).2.1 = 2 := by rw [hdec]; rfl
+    rw [if_neg (by rw [hw]; simp)]
   · rw [trim_lead_conts pre b0 [b1, b2] (by omega) (by simp [hc1, hc2]) (by simp)]
-    rw [if_neg (by simpa using hne)]
+    have hw : (Utf8.decodeRune [b0, b1, b2]).2.1 = 3 := by rw [hdec]; rfl
+    rw [if_neg (by rw [hw]; simp)]
   · have := trim_three_conts (pre ++ [b0]) b1 b2 b3 hc1 hc2 hc3
     simpa using this
 
@@ -526,7 +530,7 @@ theorem runesAux_flatten (cs : List Bytes) (h : ∀ c, c ∈ cs → RuneChunk c)
         cases c with
         | nil => simp at hcl
         | cons b0 r => exact ⟨b0, r, rfl⟩
-      have hdec := hc.2.1
+      have hdec := hc.2
       simp only [List.flatten_cons, List.map_cons]
       have hrw : Utf8.runesAux (f + 1) (c ++ t.flatten) =
           (Utf8.decodeRune (c ++ t.flatten)).1 :: Utf8.runesAux f ((c ++ t.flatten).drop (max (Utf8.decodeRune (c ++ t.flatten)).2.1 1)) := by
